@@ -13,10 +13,19 @@
 #include <etl/_type_traits/is_constructible.hpp>
 #include <etl/_type_traits/is_convertible.hpp>
 #include <etl/_type_traits/is_nothrow_constructible.hpp>
+#include <etl/_type_traits/is_same.hpp>
 #include <etl/_utility/as_const.hpp>
 #include <etl/_utility/index_sequence.hpp>
 
 namespace etl {
+
+namespace detail {
+
+// exposition only is-mapping-of [mdspan.layouts.general]
+template <typename Layout, typename Mapping>
+inline constexpr bool is_mapping_of = is_same_v<typename Layout::template mapping<typename Mapping::extents_type>, Mapping>;
+
+} // namespace detail
 
 template <typename Extents>
 struct layout_stride::mapping {
@@ -64,7 +73,12 @@ public:
         requires(detail::layout_mapping_alike<StridedLayoutMapping>
                  and is_constructible_v<extents_type, typename StridedLayoutMapping::extents_type>
                  and StridedLayoutMapping::is_always_unique() and StridedLayoutMapping::is_always_strided())
-    constexpr explicit(false /* see description */) mapping(StridedLayoutMapping const& other) noexcept
+    constexpr explicit(
+        not(is_convertible_v<typename StridedLayoutMapping::extents_type, extents_type>
+            and (detail::is_mapping_of<layout_left, StridedLayoutMapping>
+                 or detail::is_mapping_of<layout_right, StridedLayoutMapping>
+                 or detail::is_mapping_of<layout_stride, StridedLayoutMapping>))
+    ) mapping(StridedLayoutMapping const& other) noexcept
         : _extents(other.extents())
         , _strides{}
     {
